@@ -153,3 +153,50 @@ Proof.
   - destruct (Bytes.bytes_eqb buf want) eqn:E2; [|split; reflexivity].
     apply Bytes.bytes_eqb_eq in E2. subst. rewrite (proj2 (Bytes.bytes_eqb_eq want want) eq_refl) in E. discriminate.
 Qed.
+
+(* ================================================================== *)
+(* phase 2: Metadata.UnmarshalBinary's loop, one iteration: the transport is chosen by the varint
+   at the front of the rest, ReadFrom parses from that same rest, the transport is appended and
+   `read` advances by what ReadFrom consumed; any error ends the loop (model parse_all) *)
+Section UnmarshalLoop.
+  Variable P : Type.
+  Variables (newbuf : list N -> list N) (newt : Z -> P) (uv : list N -> Z * Z * option string)
+            (readfrom : P -> list N -> Z * option string).
+  Variable data : list N.
+  Variable K : list P -> Z -> frag (Z * list P).
+  Variable oof : frag (Z * list P).
+
+  Theorem UnmarshalBinary_step : forall (fuel : nat) (ps : list P) (read : Z),
+    0 <= read ->
+    metadata_UnmarshalBinary_loop_loop_1 P newbuf newt uv readfrom data K oof (S fuel) ps read =
+    if read <? len data then
+      let rest := skipn (Z.to_nat read) data in
+      match uv rest with
+      | (_, _, Some _) => FReturn "return err"%string (read, ps)
+      | (v, _, None) =>
+        match readfrom (newt v) (newbuf rest) with
+        | (_, Some _) => FReturn "return err"%string (read, ps)
+        | (n, None) => metadata_UnmarshalBinary_loop_loop_1 P newbuf newt uv readfrom data K oof fuel (ps ++ [newt v])%list (read + n)
+        end
+      end
+    else K ps read.
+  Proof.
+    intros fuel ps read Hr. cbn [metadata_UnmarshalBinary_loop_loop_1].
+    destruct (read <? len data) eqn:E; [|reflexivity]. apply Z.ltb_lt in E.
+    replace ((0 <=? read) && (read <=? len data) && (len data <=? len data))%bool with true
+      by (symmetry; rewrite !andb_true_iff, !Z.leb_le; lia).
+    cbn [negb]. rewrite slice_suffix by lia. cbv zeta.
+    destruct (uv (skipn (Z.to_nat read) data)) as [[v w] [e|]]; cbn [isNone negb]; [reflexivity|].
+    destruct (readfrom (newt v) (newbuf (skipn (Z.to_nat read) data))) as [n [e|]]; reflexivity.
+  Qed.
+
+  (* the loop ends when everything was consumed: at most one iteration per input byte is needed
+     only if every transport consumes something; the fuel makes that explicit *)
+  Theorem UnmarshalBinary_done : forall (fuel : nat) (ps : list P) (read : Z),
+    len data <= read ->
+    metadata_UnmarshalBinary_loop_loop_1 P newbuf newt uv readfrom data K oof (S fuel) ps read = K ps read.
+  Proof.
+    intros. cbn [metadata_UnmarshalBinary_loop_loop_1].
+    replace (read <? len data) with false by (symmetry; apply Z.ltb_ge; lia). reflexivity.
+  Qed.
+End UnmarshalLoop.
